@@ -5,7 +5,7 @@ from __future__ import annotations
 import numpy as np
 
 from vf import ref_mdp
-from vf.gen_mdp import mdp_specs, spec_classes
+from vf.gen_mdp import mdp_specs, spec_classes, wide_specs
 from vf.runner import sut_bucket, verdict_fail, verdict_ok
 
 ID = "C02"
@@ -19,7 +19,12 @@ RULE = (
     "state (|diff| <= 1e-9 (1+scale)); returned policy rows must be action vectors whose numpy Q attains the maximum; "
     "shift, monotonicity and contraction laws are checked on the implementation's own outputs; one pair per case is "
     "repeated on a solver constructed with that gamma. Shards run under 1, 2 or 3 emulated devices. Non-trivial = "
-    "nA>=2, nE>=2, some (s,a) row with >=2 positive probabilities, some V non-constant; distinct = distinct case digest."
+    "nA>=2, nE>=2, some (s,a) row with >=2 positive probabilities, some V non-constant; distinct = distinct case digest. "
+    "One case in twelve is a WIDE MDP instead: 1..4 states and one axis (actions or events) of 1025..2049 entries, tables "
+    "computed arithmetically from a few drawn coefficients; in two thirds of these the wide axis starts at 1, so the all-zero "
+    "vector is not an action (event), and the problem answers any vector outside its own spaces with a poison reward "
+    "(+1e9 x scale; probability 1 for a foreign event) - a phantom action or event invented by the solver (padding of an "
+    "action or event axis) then shows in the swept values instead of aliasing a real one."
 )
 ASSUMPTIONS = [
     "a sweep is observed through documented attributes (values, gamma, solve(1)); equivalence with a solver "
@@ -43,7 +48,10 @@ def strategy(tier, shard):
 
     @st.composite
     def cases(draw):
-        spec = draw(mdp_specs(max_states=10, allow_pol0=False))
+        if draw(st.integers(0, 11)) == 0:
+            spec = draw(wide_specs())  # one axis beyond 1024 / 2048 entries (sizes past any internal chunk length)
+        else:
+            spec = draw(mdp_specs(max_states=10, allow_pol0=False))
         nS = spec["nS"]
         mbs = draw(st.one_of(st.integers(1, nS + 3), st.integers(1, max(1, nS // 2))))
         npairs = draw(st.integers(2, 6 if tier == "quick" else 10))
